@@ -145,6 +145,7 @@ def run (cfg : Cfg) (st : St) (op : String) (a : List Nat) (obs : Option (List N
     fresh pre f (some set)
   | "new", [] => pure ("", {})
   | "wprobe", [] => pure ("", st)
+  | "debug", [] => pure ("", st)
   | "show", [] => do pure (← showFolds (← cur), st)
   | "prev", [] => match st.prev with
     | some f => do pure (← showFolds f, st)
